@@ -380,42 +380,10 @@ func checkEntity(fl *failer, ix *index, pkg string, e *j5sgen.Entity, peers []st
 			fl.add("commands|methods", "%sService has %d methods, %d declared", name, sd.Methods().Len(), len(c.Methods))
 		}
 	}
-	// --- topics: one event (publish) topic, one upsert topic per summary, named
-	// from the entity name; attributed to the entity with the longest matching name
-	owner := func(svc string) bool {
-		best := ""
-		for _, o := range peers {
-			if strings.HasPrefix(o, "topic:") {
-				if svc == upperFirst(o[6:])+"Topic" {
-					return false // an explicitly declared topic
-				}
-				continue
-			}
-			if strings.HasPrefix(svc, upperFirst(o)) && len(o) > len(best) {
-				best = o
-			}
-		}
-		return best == e.Name
-	}
-	nPublish, nUpsert := 0, 0
-	for name, sd := range ix.svcs {
-		if !strings.HasPrefix(name, pkg+".topic.") || !owner(string(sd.Name())) {
-			continue
-		}
-		sc, _ := proto.GetExtension(sd.Options(), messaging_j5pb.E_Service).(*messaging_j5pb.ServiceConfig)
-		switch sc.GetRole().(type) {
-		case *messaging_j5pb.ServiceConfig_Event_:
-			nPublish++
-		case *messaging_j5pb.ServiceConfig_Upsert_:
-			nUpsert++
-		}
-	}
-	if nPublish != 1 {
-		fl.add("topics|publish-count", "%s: %d publish (event) topics, want 1", e.Name, nPublish)
-	}
-	if nUpsert != len(e.Summaries) {
-		fl.add("topics|upsert-count", "%s: %d upsert topics, %d summaries declared", e.Name, nUpsert, len(e.Summaries))
-	}
+	// --- topics: a publish (event) topic and one upsert topic per summary, named
+	// from the entity name. That there are no others is checked per package
+	// (checkTopicSet), by exact names: prefixes are ambiguous between entities
+	// such as Order and OrderOrder.
 	if pt := ix.svcs[pkg+".topic."+C+"PublishTopic"]; pt == nil {
 		fl.add("topics|publish-missing", "%sPublishTopic is not generated", C)
 	} else if pt.Methods().Len() != 1 || string(pt.Methods().Get(0).Input().Name()) != C+"EventMessage" {
@@ -449,6 +417,49 @@ func checkEntity(fl *failer, ix *index, pkg string, e *j5sgen.Entity, peers []st
 	}
 	if !odd && len(entityNames) == 1 && !entityNames[snake(e.Name)] {
 		fl.add("annotation|entity-name", "%s: entity annotation %v, want %q", e.Name, entityNames, snake(e.Name))
+	}
+}
+
+// checkTopicSet: the event- and upsert-role topic services of a package are exactly
+// those the entities (publish + one per summary) and the explicit topic
+// declarations call for.
+func checkTopicSet(fl *failer, ix *index, p *j5sgen.Package) {
+	want := map[string]string{}
+	for _, f := range p.Files {
+		for _, d := range f.Decls {
+			switch {
+			case d.Entity != nil:
+				C := upperFirst(d.Entity.Name)
+				want[C+"PublishTopic"] = "event"
+				for _, sm := range d.Entity.Summaries {
+					name := C + "Summary"
+					if sm.Name != "" {
+						name = C + upperFirst(sm.Name)
+					}
+					want[name+"Topic"] = "upsert"
+				}
+			case d.Topic != nil && d.Topic.Kind == "upsert":
+				want[upperFirst(d.Topic.Name)+"Topic"] = "upsert"
+			}
+		}
+	}
+	for name, sd := range ix.svcs {
+		if !strings.HasPrefix(name, p.Name+".topic.") {
+			continue
+		}
+		sc, _ := proto.GetExtension(sd.Options(), messaging_j5pb.E_Service).(*messaging_j5pb.ServiceConfig)
+		role := ""
+		switch sc.GetRole().(type) {
+		case *messaging_j5pb.ServiceConfig_Event_:
+			role = "event"
+		case *messaging_j5pb.ServiceConfig_Upsert_:
+			role = "upsert"
+		default:
+			continue
+		}
+		if want[string(sd.Name())] != role {
+			fl.add("topics|unexpected|"+role, "%s: %s-role topic %s is generated but no entity (publish topic, summaries) or topic declaration calls for it", p.Name, role, sd.Name())
+		}
 	}
 }
 
@@ -489,6 +500,7 @@ func check(b *j5sgen.Bundle) []vf.Failure {
 				}
 			}
 		}
+		checkTopicSet(fl, ix, p)
 	}
 	// client cross-check: each entity is grouped into a StateEntity
 	var capi *client_j5pb.API
